@@ -190,25 +190,4 @@ theorem dec_enc (v : CVal) (rest : Bytes) (hv : validB maxLen v = true) :
   have := depth_le v
   simp; omega
 
-/-- Top-level decode into `[]any` of an encoded list. -/
-theorem decTop_enc (l : List CVal) (hv : validB maxLen (.list l) = true) :
-    decTop (enc (.list l)) = .ok l := by
-  simp [validB] at hv
-  have hdl := depthList_le l
-  have hpos := encHead_pos 4 l.length
-  have key : ∀ fuel, depthList l < fuel → decItems (decF fuel) l.length (encList l) = .ok (l, []) := by
-    intro fuel hf
-    have := decItems_enc l fuel [] hv.2 hf
-    simpa using this
-  have hnot : ¬ (maxLen ≤ l.length) := by omega
-  obtain ⟨b, info, rest, he, h1, h2, h3⟩ := readHead_enc 4 l.length (by omega)
-    (by have := hv.1; unfold maxLen at this; unfold argMax; omega) (encList l)
-  have hlen : (b :: rest).length = (encHead 4 l.length).length + (encList l).length := by
-    rw [← he]; simp
-  simp only [enc]
-  rw [he]
-  simp only [decTop, h1, h2, h3]
-  simp [hnot]
-  rw [key _ (by simp at hlen; omega)]
-
 end Nexus.Codec.CBOR
